@@ -79,6 +79,10 @@ def findTag (tr : Trace) (sub : String) : List Rat :=
 def findTags (tr : Trace) (sub : String) : List (List Rat) :=
   (tr.filter (fun e => (e.1.splitOn sub).length > 1)).map (·.2)
 
+/-- values read for the variable `name` (tags of variable loops end with `:<name>`) -/
+def findVar (tr : Trace) (name : String) : List (List Rat) :=
+  (tr.filter (fun e => e.1.endsWith (":" ++ name))).map (·.2)
+
 def toNatR (q : Rat) : Nat := q.floor.toNat
 
 /-- child-cell offsets as `read_level_header` computes them:
@@ -120,7 +124,7 @@ def loadCpu (cs : Case) (cpu : Nat) (st : CpuState) : Except Err CpuState := do
     let mut pcs := st.pieces
     for v in cs.partVars do
       if v.read then
-        let vals := findTag tr (":" ++ v.name)
+        let vals := (findVar tr v.name).flatten
         pcs := pcs.add ("part:" ++ v.name) (vals.map (· * v.mag))
     st := { st with pieces := pcs, nparticles := st.nparticles + np, logs := st.logs ++ [("part", plog)] }
   if !cs.meshOn then return st
@@ -178,7 +182,7 @@ def loadCpu (cs : Case) (cpu : Nat) (st : CpuState) : Except Err CpuState := do
             for v in r.vars do
               if v.read then
                 -- one trace entry per child cell, in child order
-                let vals := ((findTags rtr (":" ++ v.name)).flatten).map (· * v.mag)
+                let vals := ((findVar rtr v.name).flatten).map (· * v.mag)
                 vbuf := vbuf ++ [(v.name, vals)]
           rcs := rcs2
           let n := ncache * twotondim
